@@ -75,6 +75,7 @@ type FuncSpec struct {
 	FrameProps []string // frame obligations of this function additionally count for these properties
 	Determined bool     // the postconditions determine the results: a uniqueness obligation is generated
 	Deterministic []string // determinism discipline (syntactic pass) counts for these properties
+	Fresh         []string // results of reference type are freshly allocated (provenance pass) for these properties
 	NoSafety  bool
 	Terminate bool
 }
@@ -128,7 +129,7 @@ var clauseKeywords = map[string]bool{
 	"func": true, "extern": true, "type": true, "global": true, "axiom": true, "requires": true, "ensures": true,
 	"modifies": true, "decreases": true, "loop": true, "invariant": true, "ghost": true, "assert": true,
 	"calls": true, "pure": true, "trusted": true, "returns_elem": true, "opaque": true, "let": true, "nosafety": true,
-	"package": true, "field": true, "terminates": true, "macro": true, "lemma": true, "use": true, "hint": true, "noreturn": true, "crash_invariant": true, "frame_props": true, "determined": true, "deterministic": true,
+	"package": true, "field": true, "terminates": true, "macro": true, "lemma": true, "use": true, "hint": true, "noreturn": true, "crash_invariant": true, "frame_props": true, "determined": true, "deterministic": true, "fresh": true,
 }
 
 // Macro is a textual abbreviation usable in contract expressions: macro NAME(a, b) = body.
@@ -375,6 +376,8 @@ func (cs *Contracts) ParseFile(path string) error {
 				curF.Determined = true
 			case "deterministic":
 				curF.Deterministic = append(curF.Deterministic, strings.Fields(rc.rest)...)
+			case "fresh":
+				curF.Fresh = append(curF.Fresh, strings.Fields(rc.rest)...)
 			case "crash_invariant":
 				curF.CrashInv = append(curF.CrashInv, parseClause(rc.rest, path, rc.line))
 			case "terminates":
